@@ -246,7 +246,7 @@ def run_driver(model, scenarios):
 
 # --------------------------------------------------------------------------- impl side
 
-class Timeout(Exception):
+class Timeout(BaseException):
     pass
 
 
@@ -321,7 +321,8 @@ def shrink(prop, model_mod, lines, sig):
             return False
     cur = list(lines)
     changed = True
-    budget = 400
+    # (mutant trials bound the effort: only the verdict matters there)
+    budget = int(os.environ.get('VERIF_SHRINK_BUDGET') or 400)
     while changed and budget > 0:
         changed = False
         for i in range(len(cur) - 1, -1, -1):
@@ -376,13 +377,20 @@ def correspondence(ctx, prop, model_mod, scenarios, label):
         except Exception:       # noqa  (coverage is a convenience: never a reason to fail)
             cov = None
     try:
+        hangs = 0
         for n, lines in enumerate(scenarios):
             try:
                 obs, hs = run_impl_guarded(model_mod, lines)
             except Timeout:
                 obs, hs = ['hang'], []
+                hangs += 1
             impl_obs.append(obs)
             hints.append(hs)
+            if hangs >= 3:
+                # every hang costs the full guard time and one is already a violation: stop this stream
+                ctx.cov['stopped_after_hangs'] = {'stream': label, 'scenarios_run': n + 1, 'of': len(scenarios)}
+                scenarios = scenarios[:n + 1]
+                break
             if n % 100 == 99:
                 # scenarios define classes; collect them so that subclass registries do not grow
                 gc.collect()
@@ -507,7 +515,7 @@ def run_check(pid, tier, seed):
     cov['traces_validated_against_impl'] = len(scenarios) - len(divs)
     cov['rule'] = prop.RULE
     k = len(corpus)
-    picks = [i for i in (k, k + len(gen) // 2, len(scenarios) - 1) if 0 <= i < len(scenarios)]
+    picks = [i for i in (k, k + len(gen) // 2, len(scenarios) - 1) if 0 <= i < min(len(scenarios), len(impl_obs))]
     cov['samples'] = [{'scenario': scenarios[i], 'impl_obs': prop.project(impl_obs[i])[:40]}
                       for i in sorted(set(picks))][:3]
     if hasattr(prop, 'stats'):
